@@ -19,7 +19,8 @@ META = {
         "str(element) over the *flattened* elements and treat dict/list/tuple "
         "alike (sibling rule); one writerow per tract in iteration order, "
         "header iff not (file exists and mode 'a') in both writers; header "
-        "construction works on a fresh list. csv quoting is not decided."),
+        "construction works on a fresh list. csv quoting is not decided."
+        " Also: the header decision derives from `mode` and an existence test in both writers, both scrubbers hand a plain cell over unchanged, wrappers delegate to the method of their own name, 'ilots' cannot raise on lot divisions, joined elements are visibly str."),
     'families': ['TBL', 'EXC', 'SIB', 'ESCAPE', 'FORWARD', 'DEADPARAM', 'SIB-DEFAULTS'],
 }
 
